@@ -373,6 +373,31 @@ func genHttp2Conv(r *Rand, tier string, emit func(sx.Sx)) {
 		}
 		emit(sx.L(sx.L(cf...), sx.L(sf...)))
 	}
+	// content-length values the framer passes through unread (x/net/http2 validates names and value characters only;
+	// net/http's digits-only check is for HTTP/1): negative, signed, not a number, beyond int64 - on messages with a body
+	for _, v := range []string{"-1", "+5", "abc", "99999999999999999999", "0", "7", "-9223372036854775808"} {
+		cf := []sx.Sx{sx.A("c"),
+			sx.L(sx.A("h"), sx.N(1), sx.A("false"), sx.L(kv(":method", "POST"), kv(":scheme", "http"), kv(":path", "/cl"), kv(":authority", "svc.example"), kv("content-length", v)), sx.N(0)),
+			sx.L(sx.A("d"), sx.N(1), sx.A("true"), sx.B([]byte("payload")))}
+		sf := []sx.Sx{sx.A("s"),
+			sx.L(sx.A("h"), sx.N(1), sx.A("false"), sx.L(kv(":status", "200"), kv("content-length", v)), sx.N(0)),
+			sx.L(sx.A("d"), sx.N(1), sx.A("true"), sx.B([]byte("ok")))}
+		emit(sx.L(sx.L(cf...), sx.L(sf...)))
+	}
+	// one header field of 1.5 MB (a token, a serialized context) between two ordinary streams: the block spans a hundred
+	// CONTINUATION frames; SETTINGS_MAX_HEADER_LIST_SIZE is unlimited unless a peer says otherwise
+	{
+		big := strings.Repeat("t0k3n-", 250000)
+		req := func(sid int, path string, extra ...sx.Sx) sx.Sx {
+			hs := append([]sx.Sx{kv(":method", "GET"), kv(":scheme", "http"), kv(":path", path), kv(":authority", "svc.example")}, extra...)
+			return sx.L(sx.A("h"), sx.N(sid), sx.A("true"), sx.L(hs...), sx.N(120))
+		}
+		resp := func(sid int, st string) sx.Sx {
+			return sx.L(sx.A("h"), sx.N(sid), sx.A("true"), sx.L(kv(":status", st)), sx.N(0))
+		}
+		emit(sx.L(sx.L(sx.A("c"), req(1, "/one"), req(3, "/three", kv("x-upload-token", big)), req(5, "/five")),
+			sx.L(sx.A("s"), resp(1, "201"), resp(3, "203"), resp(5, "205"))))
+	}
 	// the header table raised in two steps between two header blocks of the server: the next block opens with two
 	// dynamic table size updates (the recorded finding h2-hpack-two-size-updates; in one step it is accepted)
 	for _, ups := range [][]string{{"tableup8k", "tableup64k"}, {"tableup64k"}, {"tableup64k", "tableup8k"}} {
